@@ -518,6 +518,14 @@ package task
 // the directory of the fingerprints (.task, unless TASK_TEMP_DIR says otherwise) is relative to the directory of the
 // ROOT TASKFILE, which is only known once the root node has been found: whatever the working directory an invocation
 // is started from, a task finds the fingerprint its last run recorded
+// C17: the output style (group / prefixed, begin, end, error_only) is taken WHOLE from the command line when one is
+// given there, and whole from the Taskfile otherwise: settings of the two are never mixed
+//@ func (*Executor).setupOutput
+//@   nosite store:Output.Group                                                                                         [C17]
+//@   nosite store:Output.Name                                                                                          [C17]
+//@   nosite store:OutputGroup.ErrorOnly                                                                                [C17]
+//@   nosite store:OutputGroup.Begin                                                                                    [C17]
+//@   nosite store:OutputGroup.End                                                                                      [C17]
 //@ ghost var rootKnown bool scratch
 //@ func (*Executor).Setup
 //@   init rootKnown := false
@@ -544,11 +552,20 @@ package task
 
 // Suggestions for unknown names come from a model trained on every task name and alias.
 // the words the model learns are the task NAMES (the keys of the task table) and the aliases
+//@ ghost var learnt bool scratch
 //@ func (*Executor).setupFuzzyModel$1
+// ... of EVERY task, internal ones included (names used inside the Taskfile - task: calls, deps - may be misspelt
+// too, and those legitimately refer to internal tasks): the loop goes on only after the name was added
+//@   init learnt := false
+//@   site slices.Concat#1 ghost learnt := true
+//@   ensures result ==> learnt                                                                                        [C15]
 //@   site append#0 requires arg1[0] == name                                                                            [C15]
 //@   site slices.Concat#0 requires arg0[1] == task.Aliases                                                             [C15]
 //@ func (*Executor).setupFuzzyModel
 //@   ensures e.Taskfile != nil ==> e.fuzzyModel != nil                                                                 [C15]
+
+// ---- C18: goroutines started by Task write no captured variable without a lock (watch mode is outside C18) -----
+//@ spawned_writes : except (*Executor).watchTasks closeOnInterrupt (*Executor).InterceptInterruptSignals               [C18]
 
 // ---- C18: lock discipline of the shared tables (every function touching them is scanned) ----------------
 //@ guarded_by Executor.executionHashes Executor.executionHashesMutex                                               [C18]
